@@ -28,6 +28,7 @@ type tpNode struct {
 type tpRec struct {
 	log    []int
 	failAt int
+	tag    string // schema tag of the checkers ("s" unless set)
 }
 
 func tpID(n parsley.Node) int {
@@ -83,7 +84,11 @@ func (p plainI) check(n parsley.NonTerminalNode) (interface{}, parsley.Error) {
 	for _, c := range n.Children() {
 		ks = append(ks, schemaStr(c))
 	}
-	return fmt.Sprintf("s%d(%s)", id, strings.Join(ks, ",")), nil
+	tag := p.r.tag
+	if tag == "" {
+		tag = "s"
+	}
+	return fmt.Sprintf("%s%d(%s)", tag, id, strings.Join(ks, ",")), nil
 }
 func (p plainI) transform(n parsley.Node) (parsley.Node, parsley.Error) {
 	id := tpID(n)
@@ -264,6 +269,14 @@ func tpObserve(tree []tpNode, list bool, stopK, failAt int) J {
 			sc[i] = schemaStr(n)
 		}
 		obs["check"] = J{"log": nz(rec.log), "failed": err != nil, "schemas": sc}
+		// a second pass over the SAME node objects: the checkers answer with another tag now, none fails
+		rec.log, rec.failAt, rec.tag = nil, 0, "r"
+		err2 := parsley.StaticCheck(nil, root)
+		sc2 := make([]string, len(nodes))
+		for i, n := range nodes {
+			sc2[i] = schemaStr(n)
+		}
+		obs["check2"] = J{"log": nz(rec.log), "failed": err2 != nil, "schemas": sc2}
 		rec = &tpRec{failAt: failAt}
 		root, _ = tpBuild(tree, rec)
 		res, terr := parsley.Transform(nil, root)
@@ -326,6 +339,7 @@ func treepassMain(mode string, a args) {
 		type pass struct {
 			FailAt    int `json:"failAt"`
 			Check     J   `json:"check"`
+			Check2    J   `json:"check2"`
 			Api       J   `json:"api"`
 			Transform J   `json:"transform"`
 			Eval      J   `json:"eval"`
@@ -370,6 +384,7 @@ func treepassMain(mode string, a args) {
 					continue
 				}
 				cmp(fmt.Sprintf("StaticCheck failAt=%d", p.FailAt), o["check"], p.Check)
+				cmp(fmt.Sprintf("second StaticCheck over the same nodes after failAt=%d", p.FailAt), o["check2"], p.Check2)
 				cmp(fmt.Sprintf("Transform failAt=%d", p.FailAt), o["transform"], p.Transform)
 				cmp(fmt.Sprintf("Evaluate failAt=%d", p.FailAt), o["eval"], p.Eval)
 				cmp(fmt.Sprintf("Parse with transformation+static check, failAt=%d", p.FailAt), o["api"], p.Api)
